@@ -39,6 +39,7 @@ Example C05_textbook_div_nonvacuous :
   fwd_axes (Some ["p"; "q"; "s"]%string) [("s", "a"); ("p", "b"); ("q", "c")]%string ["a"; "b"; "c"]%string
   = OK [1; 2; 0]%nat.
 Proof. reflexivity. Qed.
+Print Assumptions C05_textbook_div_nonvacuous.
 
 (* result component k is along axis k; the component that points along axis a is r a (reversed mapping) *)
 Theorem C05_textbook_curl : forall (K : FOps) (M : cmesh K) dims vmap (f : idx -> K) valid vs axes r,
@@ -54,6 +55,7 @@ Example C05_textbook_curl_nonvacuous :
   rev_comps (Some ["p"; "q"; "s"]%string) [("s", "a"); ("p", "b"); ("q", "c")]%string ["a"; "b"; "c"]%string
   = OK [2; 0; 1]%nat.
 Proof. reflexivity. Qed.
+Print Assumptions C05_textbook_curl_nonvacuous.
 
 Theorem C05_textbook_laplace : forall (K : FOps) (M : cmesh K) dims vmap (f : idx -> K) valid nv vs,
   run_op K OLap M dims nv (Some vs) vmap f valid = OK (nv, lap_v K M f valid) /\
@@ -177,6 +179,7 @@ Proof.
   split; [split; [reflexivity|] | discriminate].
   intros [|[|[|a]]] Ha; try lia; (split; [cbv; lia | split; [reflexivity | split; [discriminate | cbv; lia]]]).
 Qed.
+Print Assumptions C05_exact_quadratic_nonvacuous.
 
 (* ===== the vector identities, exactly in K, on every fully valid 3-d mesh ===== *)
 
@@ -220,6 +223,7 @@ Proof.
   split; [reflexivity|]. split; [reflexivity|].
   intros [|[|[|a]]] Ha; cbv in Ha |- *; lia.
 Qed.
+Print Assumptions C05_identities_nonvacuous.
 
 
 (* ===== commutation with quarter-turn rotations of the field =====
@@ -325,6 +329,7 @@ Proof.
   cbv zeta. repeat split; try reflexivity;
     try (intros [|[|[|ci]]] H; simpl; lia); try (destruct ci as [|[|[|ci]]]; simpl; lia).
 Qed.
+Print Assumptions C05_rot90_commute_div_nonvacuous.
 
 (* curl (rotate90 v) = rotate90 (curl v) in three dimensions: r x = component mapped to axis x (any
    bijection); Field.rotate90 rotates the components r a and r b of v, and the components a and b of the
@@ -345,6 +350,7 @@ Example C05_rot90_commute_curl_nonvacuous : NoDup [2; 0; 1]%nat /\ cm_nd C05_dem
 Proof.
   split; [|reflexivity]. repeat constructor; simpl; intuition discriminate.
 Qed.
+Print Assumptions C05_rot90_commute_curl_nonvacuous.
 
 (* a mesh with exactly ONE periodic axis in the rotation plane (axis 0 periodic, axis 2 open), odd k *)
 Definition C05_demo_mesh_per : cmesh QcOps :=
@@ -359,6 +365,7 @@ Proof.
   split; try (split; reflexivity); try discriminate; try (cbv; lia).
   split; [reflexivity|]. intros [|[|[|t]]] Ht; cbv in Ht |- *; lia.
 Qed.
+Print Assumptions C05_rot90_commute_nonvacuous.
 
 (* ===== refusals ===== *)
 Theorem C05_grad_refuses_non_scalar : forall (K : FOps) (M : cmesh K) dims vmap (f : idx -> K) valid nv vdims,
@@ -404,3 +411,4 @@ Example C05_refusals_nonvacuous :
 Proof.
   split; [right; exists "nope"%string; split; reflexivity|]. split; [left; reflexivity | reflexivity].
 Qed.
+Print Assumptions C05_refusals_nonvacuous.
